@@ -360,7 +360,7 @@ func init() {
 // c19ByteClasses: the container stores byte strings, whatever they are - texts that spell a tag in brackets (what String()
 // prints for a tagged entry), texts that end in a cut multi-byte sequence, ill-formed bytes, the empty text.
 func c19ByteClasses(c *engine.Ctx) {
-	texts := []string{"Bob[en]", "caf\xc3", "5 \xe2\x82", "\xf0\x9f\x98", "it\x92s", "\x80", "[-]", "x\x00y"}
+	texts := []string{"Bob[en]", "caf\xc3", "5 \xe2\x82", "\xf0\x9f\x98", "it\x92s", "\x80", "[-]", "x\x00y", ""}
 	saved := c19Texts
 	c19Texts = texts
 	ops := c19Ops()
